@@ -28,6 +28,7 @@ Kinds == << "deadlock",                  \* C13: a listen/close call did not ret
             "socket-not-released",       \* C12: address cannot be bound after the last close
             "connection-left-hanging",   \* C12: accepted connection neither served nor closed
             "goroutine-leak",            \* C12: something keeps running after the last close
+            "wrong-source-address",      \* C12/C04: the source address returned with a datagram is not (or does not stay) the sender's
             "item-lost" >>               \* C12: a connection/datagram was never delivered although, from its arrival on, some
                                          \*      handle of its address was open all the time and a call was still waiting
 NK == Len(Kinds)
@@ -138,11 +139,15 @@ TrCleanupStart ==
      Flag(IF lost # {} THEN {"item-lost"} ELSE {})
   /\ UNCHANGED <<closeStarted, closeDone, acc, delivered, nsched, ndrift, keyOf, itemKey, gap>>
 
+TrAddrCheck == /\ Is("AddrCheck")
+               /\ Flag(IF E.atReturn # E.sender \/ E.atEnd # E.sender THEN {"wrong-source-address"} ELSE {})
+               /\ UNCHANGED <<closeStarted, closeDone, acc, delivered, nsched, ndrift, keyOf, itemKey, gap>>
+
 TrOther == /\ l <= Len(Trace) /\ E.ev \in {"ListenStart", "Replayed", "End"} /\ l' = l + 1
            /\ UNCHANGED <<closeStarted, closeDone, acc, delivered, vio, nsched, ndrift, keyOf, itemKey, gap>>
 
 Next == TrSched \/ TrListenEnd \/ TrCloseStart \/ TrCloseEnd \/ TrAcceptStart \/ TrAcceptEnd \/ TrStuck
-        \/ TrRebind \/ TrItemFate \/ TrLeak \/ TrOther \/ TrConnect \/ TrConnectStart \/ TrCleanupStart
+        \/ TrRebind \/ TrItemFate \/ TrLeak \/ TrOther \/ TrConnect \/ TrConnectStart \/ TrCleanupStart \/ TrAddrCheck
 Spec == Init /\ [][Next]_tvars
 
 Report == (l = Len(Trace) + 1) => PrintT(<<"RESULT", l - 1, nsched, ndrift, vio>>)
